@@ -171,6 +171,65 @@ func registerZZ(vm *VM) {
 	z("BigInt", func(vm *VM, _ *frame, a []Value) Value {
 		return vm.newBig(vm.SymInt(str(a[0])))
 	})
+	z("BigIntOnce", func(vm *VM, _ *frame, a []Value) Value {
+		name := str(a[0])
+		if vm.onceSyms == nil {
+			vm.onceSyms = map[string]*Value{}
+		}
+		if p, ok := vm.onceSyms[name]; ok {
+			return p
+		}
+		p := vm.newBig(vm.SymInt(name))
+		vm.onceSyms[name] = p
+		return p
+	})
+	z("HasPrefix", func(vm *VM, _ *frame, a []Value) Value {
+		s, p := a[0], a[1]
+		if ss, ok := s.(string); ok {
+			if ps, ok := p.(string); ok {
+				return strings.HasPrefix(ss, ps)
+			}
+		}
+		if _, isO := s.(*Opaque); isO {
+			vmErr("HasPrefix on an opaque string")
+		}
+		if _, isO := p.(*Opaque); isO {
+			vmErr("HasPrefix on an opaque string")
+		}
+		sa, pa := atomsOf(s), atomsOf(p)
+		// structural prefix: identical leading atoms, the last prefix atom may be a prefix of a concrete atom
+		for i, x := range pa {
+			if i >= len(sa) {
+				return false
+			}
+			y := sa[i]
+			last := i == len(pa)-1
+			switch x.Kind {
+			case aConc:
+				if y.Kind != aConc {
+					vmErr("HasPrefix: cannot align %s with %s", describe(p), describe(s))
+				}
+				if last {
+					if !strings.HasPrefix(y.S, x.S) {
+						if strings.HasPrefix(x.S, y.S) && len(x.S) > len(y.S) {
+							vmErr("HasPrefix: cannot align %s with %s", describe(p), describe(s))
+						}
+						return false
+					}
+				} else if x.S != y.S {
+					return false
+				}
+			default:
+				if y.Kind != x.Kind || !smt.Equal(x.T, y.T) {
+					vmErr("HasPrefix: cannot align %s with %s", describe(p), describe(s))
+				}
+				if last && x.Kind == aDec && i+1 < len(sa) && !sepAfter(sa[i+1:]) {
+					vmErr("HasPrefix: decimal atom followed by digits")
+				}
+			}
+		}
+		return true
+	})
 	z("Int", func(vm *VM, _ *frame, a []Value) Value {
 		t := vm.SymInt(str(a[0]))
 		lo, hi := vm.concInt(a[1], "lo"), vm.concInt(a[2], "hi")
